@@ -130,7 +130,7 @@ def markup_cases():
 
 
 def search():
-    hit = markup_cases() or leak_cases() or preprocessor_exit_case() or command_line_run() or cyclic_submodule()
+    hit = markup_cases() or leak_cases() or preprocessor_exit_case() or command_line_run() or cyclic_submodule() or name_allocation_case()
     if hit:
         return hit
     try:
@@ -321,4 +321,28 @@ def cyclic_submodule():
         if label == "its own parent" and "m_bad.f90" not in msg and "m_bad" not in msg:
             return {"confirmed": True, "input": {"case": label, "file": files["src/m_bad.f90"]}, "actual": msg[-300:], "expected": "a diagnostic that names m_bad.f90 (or a normal run)",
                     "how": "Project(...) + correlate() with default settings"} if "Error" in msg or "Traceback" in msg else None
+    return None
+
+
+def name_allocation_case():
+    """a rejected file leaves nothing behind - not even a used-up output name: a corrupt copy of a module (its CONTAINS line lost: an error is printed inside the module, then the
+    unbalanced END rejects the file) read before the valid file does not push the valid module to `omega~2`"""
+    bad_copy = GOOD["src/z_last.f90"].replace("contains\n", "")
+    files = dict(GOOD)
+    files["src/b_copy_of_last.f90"] = bad_copy
+    try:
+        with watchdog(60):
+            ref_tree, ref_ids, _ = build(GOOD)
+            tree, ids, log = build(files)
+    except Timeout:
+        return {"confirmed": True, "input": {"files": files}, "actual": "no termination within 60 s", "expected": "terminates", "how": "watchdog"}
+    except Exception as e:
+        return {"confirmed": True, "input": {"files": files}, "actual": f"run aborted: {type(e).__name__}: {e}", "expected": "the bad file is reported and skipped", "how": "Project(...) with default settings"}
+    if "b_copy_of_last.f90" in tree:
+        return None          # (accepted after all: nothing to compare)
+    ids_others = [i for i in ids if i[2] != "b_copy_of_last.f90"]
+    if ids_others != ref_ids:
+        diff = [(a, b) for a, b in zip(ref_ids, ids_others) if a != b][:3]
+        return {"confirmed": True, "input": {"files": files}, "actual": diff, "expected": "identifiers (page names) of the valid files' entities as without the corrupt file",
+                "how": "idents with and without a corrupt copy of a valid module that is read first"}
     return None
